@@ -250,7 +250,25 @@ pub fn run(ctx: &Ctx) -> Outcome {
             }
         }
     }
+    // long file lists under the usual descriptor limit (soft RLIMIT_NOFILE 1024 while these run; the
+    // worker threads of the enumeration above have ended)
+    let mut long_lists = 0u64;
+    {
+        let rt = httpfake::runtime();
+        let dir = core::private_cwd("c03", "longlist");
+        for n in ctx.tier.pick(vec![1500usize], vec![300usize, 1100, 1500, 4000]) {
+            long_lists += 1;
+            let g = Geo { p: 64, files: (0..n).map(|i| 1 + (i * 7) % 40).collect(), single: false, style: 0 };
+            let r = with_nofile_limit(1024, || check_geo(&rt, &dir, &g));
+            if let Some((class, summary)) = r {
+                let short = summary.rfind("}:").map(|i| summary[i + 2..].to_string()).unwrap_or(summary.clone());
+                ctx.violation(class, format!("[{} files of 1..=40 bytes, piece length 64, soft RLIMIT_NOFILE 1024]{}", n, &short[..short.len().min(400)]), json!({"kind": "longlist", "n": n}));
+            }
+        }
+        core::wipe_dir(&dir);
+    }
     let mut o = Outcome::new("exploration");
+    o.set("long_file_lists", json!(long_lists));
     o.set("name_clash_cases", json!(clashes));
     o.set("evaluations", json!(geos.len() as u64 + clashes));
     o.set("distinct_nontrivial", json!(multi_in_piece));
@@ -262,7 +280,41 @@ pub fn run(ctx: &Ctx) -> Outcome {
     o
 }
 
+/// Run `f` with the soft limit on open descriptors lowered to `limit` (restored afterwards).
+pub fn with_nofile_limit<T>(limit: u64, f: impl FnOnce() -> T) -> T {
+    let mut old = libc::rlimit { rlim_cur: 0, rlim_max: 0 };
+    let got = unsafe { libc::getrlimit(libc::RLIMIT_NOFILE, &mut old) } == 0;
+    if got && old.rlim_cur > limit {
+        let new = libc::rlimit { rlim_cur: limit, rlim_max: old.rlim_max };
+        unsafe { libc::setrlimit(libc::RLIMIT_NOFILE, &new) };
+    }
+    let r = f();
+    if got {
+        unsafe { libc::setrlimit(libc::RLIMIT_NOFILE, &old) };
+    }
+    r
+}
+
 pub fn replay(_ctx: &Ctx, r: &Value) -> i32 {
+    if r["kind"] == "longlist" {
+        let rt = httpfake::runtime();
+        let dir = core::private_cwd("c03", "replay");
+        let n = r["n"].as_u64().unwrap() as usize;
+        let g = Geo { p: 64, files: (0..n).map(|i| 1 + (i * 7) % 40).collect(), single: false, style: 0 };
+        let res = with_nofile_limit(1024, || check_geo(&rt, &dir, &g));
+        core::wipe_dir(&dir);
+        return match res {
+            Some((class, s)) => {
+                let short = s.rfind("}:").map(|i| s[i + 2..].to_string()).unwrap_or(s.clone());
+                println!("VIOLATION property=C03 replay=<this file>\n  class={} [{} files]{}", class, n, &short[..short.len().min(400)]);
+                1
+            }
+            None => {
+                println!("holds for this case");
+                0
+            }
+        };
+    }
     if r["kind"] == "clash" {
         let rt = httpfake::runtime();
         let dir = core::private_cwd("c03", "replay");
